@@ -112,7 +112,7 @@ def run(check, an: Analysis):
     check.stats.update(an.stats())
 
 
-def _check_exit_pred(check, an: Analysis, callee: Callee, construct: str):
+def _check_exit_pred(check, an: Analysis, callee: Callee, construct: str, rule: str = 'E'):
     paths = an.paths(callee)
     bad = None
     n = 0
@@ -125,7 +125,7 @@ def _check_exit_pred(check, an: Analysis, callee: Callee, construct: str):
         ok = any(tested(e, ('truth', 'self'), True) for e in tail)
         if not ok and bad is None:
             bad = path
-    check.instance('E', construct, n > 0 and bad is None, where_fn(callee.fn),
+    check.instance(rule, construct, n > 0 and bad is None, where_fn(callee.fn),
                    'all %d normal exits evaluate `self` true after their last suspension'
                    % n, path=rules.path_lines(bad) if bad else None, analysed=len(paths))
 
